@@ -210,7 +210,8 @@ class Exporter:
 
                 for node in next_nodes:
                     content = ''
-                    if isinstance(node.token, HeaderToken) and node.token.encoding in options.spine_types:
+                    if isinstance(node.token, HeaderToken) and node.token.encoding in options.spine_types \
+                            and (options.spine_ids is None or node.token.spine_id in options.spine_ids):
                         content = self.export_token(node, options)
                         non_place_holder_in_row = True
                     elif spine_operation_row:
